@@ -97,6 +97,7 @@ let parse_arg tok =
             | ["upper"; x] -> CUpper (z_of_int (int_of_string x))
             | ["range"; a; b] -> CRange (z_of_int (int_of_string a), z_of_int (int_of_string b))
             | "values" :: l -> if l = [] then raise Setup else CValues (List.map str_of_string l)
+            | "ivalues" :: l -> if l = [] then raise Setup else CIValues (List.map str_of_string l)
             | ["minlen"; n] -> CMinLen (nat_of_int (int_of_string n))
             | ["maxlen"; n] -> CMaxLen (nat_of_int (int_of_string n))
             | _ -> raise (Unsupported "check") in
